@@ -5,5 +5,60 @@ PROP = "C05"
 THEOREMS = ["C05_model_smoke", "C05_views_agree_reachable", "C05_index_is_membership", "C05_no_empty_channel", "C05_disconnect_cleans_up", "C05_fresh_channel_defaults", "C05_refused_join_changes_nothing", "C05_invariant_side_condition_tight"]
 
 
+import serverlib as sl
+import srvmon
+
+
+def interleaved_histories(r, thorough):
+    """requests of different connections interleaved at a suspended modulator notification (the scripted
+    modulator parks the call): last-member-leaves racing a join, disconnect clean-up racing a join / re-identify.
+    Outside the sequential model: judged by the quiescence audit (CHANNELS vs MEMBERS) only."""
+    cases = []
+    firsts = ["leave_last", "hangup_last", "leave_owner_with_others"]
+    seconds = ["join_other", "join_on_behalf", "leave_other", "reidentify_join"]
+    combos = [(a, b, rel) for a in firsts for b in seconds for rel in ("ok", "err")]
+    if not thorough:
+        combos = r.sample(combos, 8) + [("leave_last", "join_other", "ok")]
+    for first, second, rel in combos:
+        cfg = sl.base_cfg(r, {"ops": ["fwd-event"], "proto": "P/1"})
+        cfg.update({"max_clients": 10, "max_subs": 10, "max_conns": 16, "max_channels": 100, "max_inflight": 10})
+        g = sl.Gen(r, cfg)
+        def conn(k, u, chans):
+            g.ops.append({"t": "open", "k": k})
+            g.ops.append({"t": "send", "k": k, "bytes": sl.frame("CONNECT", [("version", 1), ("heartbeat_interval", 0)]).hex(), "script": []})
+            g.ops.append({"t": "send", "k": k, "bytes": sl.frame("IDENTIFY", [("username", u)]).hex(), "script": []})
+            for ch in chans:
+                g.ops.append({"t": "send", "k": k, "bytes": sl.frame("JOIN", [("id", g.rid()), ("channel", ch)]).hex(), "script": []})
+            g.conns[k] = {"phase": 2, "user": u}
+        c1 = "!c1@localhost"
+        conn(1, "alice", [c1])
+        conn(2, "bob", [c1] if first == "leave_owner_with_others" else [])
+        conn(3, "carol", ["!c2@localhost"])
+        park = [{"park": 1}]
+        if first == "hangup_last":
+            g.ops.append({"t": "hangup", "k": 1, "script": park})
+            del g.conns[1]
+        else:
+            g.ops.append({"t": "send", "k": 1, "bytes": sl.frame("LEAVE", [("id", g.rid()), ("channel", c1)]).hex(), "script": park})
+        if second == "join_other":
+            g.ops.append({"t": "send", "k": 3, "bytes": sl.frame("JOIN", [("id", g.rid()), ("channel", c1)]).hex(), "script": []})
+        elif second == "join_on_behalf":
+            g.ops.append({"t": "send", "k": 2, "bytes": sl.frame("JOIN", [("id", g.rid()), ("channel", c1), ("on_behalf", "carol@localhost")]).hex(), "script": []})
+        elif second == "leave_other":
+            g.ops.append({"t": "send", "k": 2, "bytes": sl.frame("LEAVE", [("id", g.rid()), ("channel", c1)]).hex(), "script": []})
+        else:
+            g.ops.append({"t": "open", "k": 4})
+            g.ops.append({"t": "send", "k": 4, "bytes": sl.frame("CONNECT", [("version", 1), ("heartbeat_interval", 0)]).hex(), "script": []})
+            g.ops.append({"t": "send", "k": 4, "bytes": sl.frame("IDENTIFY", [("username", "alice")]).hex(), "script": []})
+            g.ops.append({"t": "send", "k": 4, "bytes": sl.frame("JOIN", [("id", g.rid()), ("channel", c1)]).hex(), "script": []})
+            g.conns[4] = {"phase": 2, "user": "alice"}
+        g.ops.append({"t": "release", "id": 1, "outcome": rel})
+        g.ops.append({"t": "advance", "ms": 50})
+        ops = g.ops + srvmon.audit_ops(g)
+        cases.append({"cfg": cfg, "ops": ops, "nomodel": True})
+    return cases
+
+
 def run(tier, replay=None):
-    return srvprops.run(PROP, THEOREMS, tier, replay)
+    return srvprops.run(PROP, THEOREMS, tier, replay, extra_gen=interleaved_histories,
+                        rule_note="plus interleaved histories: a LEAVE / disconnect clean-up suspended in its modulator notification while another connection joins, leaves or re-identifies; judged by the CHANNELS-vs-MEMBERS audit")
